@@ -262,7 +262,28 @@ def cleanup_tmp():
 # ----------------------------------------------------------------------------------------------
 
 
-def _hyp_settings(n, steps=None):
+def _minimise_log(ctx, sub, log, signature, budget=40):
+    """Greedy deletion of operations from a failing op log (the init op stays); keeps the same signature."""
+    best = list(log)
+    tries = 0
+    i = len(best) - 1
+    while i >= 1 and tries < budget:
+        cand = best[:i] + best[i + 1 :]
+        tries += 1
+        c2 = Ctx(ctx.pid, ctx.sub, ctx.tier, ctx.seed, ctx.shard, ctx.nshards, ctx.known)
+        c2.begin(cand)
+        try:
+            sub.body(c2, cand)
+        except PropertyViolation as e:
+            if e.signature == signature:
+                best = cand
+        except Exception:  # noqa: BLE001 -- a candidate that breaks the harness is simply not a reduction
+            pass
+        i -= 1
+    return best
+
+
+def _hyp_settings(n, steps=None, shrink=True):
     from hypothesis import HealthCheck, Phase, settings
 
     kw = dict(
@@ -272,7 +293,7 @@ def _hyp_settings(n, steps=None):
         derandomize=False,
         report_multiple_bugs=False,
         print_blob=False,
-        phases=[Phase.generate, Phase.shrink],
+        phases=[Phase.generate, Phase.shrink] if shrink else [Phase.generate],
         suppress_health_check=[HealthCheck.too_slow, HealthCheck.data_too_large],
     )
     if steps is not None:
@@ -336,11 +357,15 @@ def run_sub(check, sub, tier, seed, shard, nshards, known, budget_s=None):
             if tier == "thorough":
                 n = max(1, n // nshards)
             machine = sub.kw["factory"](ctx, tier)
-            run_state_machine_as_test(hypothesis.seed(dseed)(machine), settings=_hyp_settings(n, steps))
+            # Hypothesis' shrinker needs minutes on machines whose every step evaluates frames (hard 5-minute cap);
+            # generation only, then a bounded greedy deletion of operations through the replay interpreter.
+            run_state_machine_as_test(hypothesis.seed(dseed)(machine), settings=_hyp_settings(n, steps, shrink=False))
         else:
             raise HarnessError(f"unknown sub-check kind {sub.kind}")
     except PropertyViolation as e:
         desc = ctx.failing[0] if ctx.failing else ctx._cur
+        if sub.kind == "machine" and isinstance(desc, list):
+            desc = _minimise_log(ctx, sub, desc, e.signature)
         viol = {"sub": sub.name, "desc": desc, "signature": e.signature, "message": e.message}
     except HarnessError:
         raise
